@@ -127,7 +127,8 @@ def worker(ctx, job):
         big = n >= ref.MIB - 1
         data = ref.gen(n, 112)
         odata = ref.gen(max(n, 1), 113)
-        priors = ["absent"] if (big or entry == "open_hash") else ["absent", "present", "removed"]
+        # "same-data": the key (or, by address, the cache) already holds exactly the bytes the writer is going to deliver
+        priors = ["absent"] if big else (["absent", "same-data"] if entry == "open_hash" else ["absent", "present", "removed", "same-data"])
         chunkss = [[n]] if big else ([[n], [1, n - 1], [n - 1, 1]] if n > 1 else [[n], [0, n]])
         dsizes = [None, n, n + 1, 2 * n + 3] + ([n - 1, 0] if n > 0 else [])
         if big and quick:
@@ -147,6 +148,11 @@ def worker(ctx, job):
                             assert "ok" in rep, rep
                         if prior == "removed":
                             srv.call({"op": "remove_sync", "cache": cache, "key": KEY})
+                        if prior == "same-data":
+                            if fname != forms[0][0] and dsize not in (None, n):
+                                pass
+                            rep0, _ = wr.do_write(srv, cache, side="s", entry="oneshot_algo" if entry == "open" else "hash_algo", key=KEY if entry == "open" else None, algo=algo, n=n, tag=112)
+                            assert "ok" in rep0, rep0
                         if entry == "open":
                             before = {l: srv.call({"op": l, "cache": cache, "key": KEY}) for l in lookups}
                         opts = {}
@@ -197,6 +203,11 @@ def worker(ctx, job):
                                 after = {l: srv.call({"op": l, "cache": cache, "key": KEY}) for l in lookups}
                                 if after != before:
                                     V.violation(res, sig + ":rejected-but-mapping-changed", "rejected commit changed the key's mapping: before %r after %r" % (before, after), replay)
+                            if prior == "same-data":
+                                # the mapping that existed must still RESOLVE: the bytes are shared by address
+                                r = srv.call({"op": "read_sync", "cache": cache, "key": KEY}) if entry == "open" else srv.call({"op": "read_hash_sync", "cache": cache, "sri": ctx.sri(algo, data)})
+                                if not ("ok" in r and wr.data_matches(r["ok"], data)):
+                                    V.violation(res, sig + ":rejected-but-stored-data-lost", "after a rejected commit of the same bytes the earlier mapping reads %r" % (r,), replay)
                         elif fexp == "ok":
                             want = ctx.sri(algo, data)
                             if rep["ok"] != want:
